@@ -472,7 +472,7 @@ class InProtocolBase(ProtocolMixin):
             tz = pytz.utc
             retval = _parse_datetime_iso_match(match, tz=tz)
             if astz is not None:
-                retval = retval.astimezone(astz)
+                retval = _astimezone(retval, astz, string)
             return retval
 
         if match is None:
@@ -487,7 +487,7 @@ class InProtocolBase(ProtocolMixin):
                     raise ValidationError(string, "%%r: %s" % (e,))
                 retval = _parse_datetime_iso_match(match, tz=tz)
                 if astz is not None:
-                    retval = retval.astimezone(astz)
+                    retval = _astimezone(retval, astz, string)
                 return retval
 
         if match is None:
@@ -692,6 +692,14 @@ _uuid_deserialize = {
 if six.PY2:
     _uuid_deserialize[None] = lambda s: uuid.UUID(s)
     _uuid_deserialize[('int', long)] = _uuid_deserialize[('int', int)]
+
+
+def _astimezone(value, tz, string):
+    try:
+        return value.astimezone(tz)
+    except (OverflowError, ValueError) as e:
+        # within a day of datetime.min / datetime.max
+        raise ValidationError(string, "%%r: %s" % (e,))
 
 
 def _parse_datetime_iso_match(date_match, tz=None):
